@@ -109,7 +109,7 @@ Spec == Init /\ [][Step]_vars
 
 AsTrace == [cfg |-> cfg, init |-> init, total |-> Total,
             ev |-> Append(evs, Ev("end", "", FALSE, 0, dest, part)),
-            raised |-> raised, body_raised |-> body_raised, retried |-> FALSE, retry_ok |-> FALSE]
+            raised |-> raised, body_raised |-> body_raised, retried |-> FALSE, retry_ok |-> FALSE, retry_mode |-> 0]
 (* every state is a crash point: the judge accepts every prefix *)
 InvEveryPrefixJudgedOK ==
     Judge(cfg, init, Total, PInit(init), init, evs, 1).why = ""
